@@ -6,3 +6,6 @@ From NeatModel Require Import Res F64 Net Fast C12Cases.
 Definition c13_case := solver_case.
 Definition c13_check := solver_check.
 Definition c13_mismatches (l : list c13_case) : list Z := failing c13_check sc_id l.
+(* agent-modules: the case library for networks with control nodes (module semantics of both solvers) is built with
+   this one; its case files import ModCases directly *)
+From NeatModel Require Export ModCases.
